@@ -15,7 +15,7 @@ C02 — Error-correction blocks are valid RS codewords with the ISO block layout
 * the recovery corollary (floor(ec/2) errors correctable) follows by the BCH bound, which is cited,
   not proved here.
 -/
-import FastQr.Finite.Tables
+import FastQr.Finite.TablesLayout
 import FastQr.Proofs.Lift
 import FastQr.Props.C07
 import FastQr.Model.Poly
